@@ -139,3 +139,81 @@ package layer
 //@   ensures[C15] result == nil && !old(hasNoPrefetchLM(l)) ==> cacheReqs == old(cacheReqs) + 1
 //@   ensures[C15] result == nil && !old(hasNoPrefetchLM(l)) && old(hasPrefetchLM(l)) ==> cacheReqSize == old(offsetOf(mdOf(l), childID(mdOf(l), rootOf(mdOf(l)), estargz.PrefetchLandmark)))
 //@   ensures[C15] result == nil && !old(hasNoPrefetchLM(l)) && !old(hasPrefetchLM(l)) ==> cacheReqSize == min(prefetchSize, old(blobSize(payload(l.blob.Blob))))
+
+// ---- C12: every reference taken from the layer / blob caches is handed over or given back exactly once ----
+// owed: number of cache references taken (TTLCache.Get hit / Add) whose release function has not been called yet.
+// A successful Resolve leaves exactly the reference inside the returned layerRef owed (plus the blob reference owned by
+// the layer object when this call created the cached layer); a failed Resolve / resolveBlob leaves nothing owed; closing
+// a layer gives back the blob reference it owns and does not close the shared blob itself.
+//@ ghost owed int
+//@ ghost blobCloses int
+//@ func util/cacheutil.(*TTLCache).Get
+//@   trusted
+//@   modifies owed
+//@   ensures ok ==> done != nil && value != nil && owed == old(owed) + 1
+//@   ensures !ok ==> owed == old(owed)
+//@ func util/cacheutil.(*TTLCache).Get#done
+//@   modifies owed
+//@   ensures owed == old(owed) - 1
+//@ func util/cacheutil.(*TTLCache).Add
+//@   trusted
+//@   modifies owed
+//@   ensures done != nil && cachedValue != nil && owed == old(owed) + 1 && (added ==> cachedValue == value)
+//@ func util/cacheutil.(*TTLCache).Add#done
+//@   modifies owed
+//@   ensures owed == old(owed) - 1
+//@ func util/cacheutil.(*TTLCache).Remove
+//@   trusted
+//@   ensures true
+//@ type blobRef
+//@   callback done
+//@   modifies owed
+//@   ensures owed == old(owed) - 1
+//@ type layerRef
+//@   callback done
+//@   modifies owed
+//@   ensures owed == old(owed) - 1
+//@ func interface fs/remote.Blob.Close
+//@   modifies blobCloses
+//@   ensures blobCloses == old(blobCloses) + 1
+//@ func (l *layer) close
+//@   props C12
+//@   requires l.blob != nil && l.blob.done != nil && l.verifiableReader != nil && l.verifiableReader.r != nil && l.verifiableReader.r.cache != nil && l.verifiableReader.r.r != nil
+//@   ensures[C12] !old(l.closed) ==> owed == old(owed) - 1 && l.closed
+//@   ensures[C12] old(l.closed) ==> owed == old(owed)
+//@   ensures[C12] blobCloses == old(blobCloses)
+//@ func (r *Resolver) resolveBlob
+//@   props C12
+//@   requires r.blobCache != nil && r.resolver != nil
+//@   assume after "c, done, ok := r.blobCache.Get(name)" : ok ==> implements(c, "remote.Blob")
+//@   assume after "cachedB, done, added := r.blobCache.Add(name, b)" : implements(cachedB, "remote.Blob")
+//@   ensures[C12] retErr == nil ==> result0 != nil && result0.done != nil && result0.Blob != nil && owed == old(owed) + 1
+//@   ensures[C12] retErr != nil ==> owed == old(owed)
+// newLayer takes ownership of the blob reference (it is released by the layer's close)
+//@ func newLayer
+//@   props C12
+//@   modifies nothing
+//@   ensures[C12] result != nil && result.blob == blob && result.verifiableReader == vr && !result.closed && result.r == nil
+//@ func (r *Resolver) Resolve
+//@   props C12
+//@   requires r.layerCache != nil && r.blobCache != nil && r.resolver != nil && r.resolveLock != nil && r.backgroundTaskManager != nil && r.metadataStore != nil
+//@   assume after "c, done, ok := r.layerCache.Get(name)" : ok ==> typeof(c) == tagof("*layer") && payload(c) != nil && as(c, "*layer").blob != nil && as(c, "*layer").blob.Blob != nil
+//@   assume after "cachedL, done2, added := r.layerCache.Add(name, l)" : typeof(cachedL) == tagof("*layer") && payload(cachedL) != nil
+//@   ensures[C12] retErr != nil ==> owed == old(owed)
+//@   ensures[C12] retErr == nil ==> result0 != nil && (owed == old(owed) + 1 || owed == old(owed) + 2)
+// helpers whose bodies are not followed here (assumed: they take no reference from the layer / blob caches)
+//@ func newCache
+//@   trusted
+//@   ensures err == nil ==> result0 != nil
+//@ func fs/remote.(*Resolver).Resolve
+//@   trusted
+//@   ensures err == nil ==> result0 != nil
+//@ func fs/reader.NewReader
+//@   trusted
+//@   ensures err == nil ==> result0 != nil && result0.r != nil && result0.r.cache != nil && result0.r.r != nil
+//@ func util/namedmutex.(*NamedMutex).Lock
+//@   trusted
+//@   ensures true
+//@ func util/namedmutex.(*NamedMutex).Unlock
+//@   trusted
+//@   ensures true
